@@ -170,9 +170,14 @@ fn gen_values(rng: &mut Rng, p: &Profile) -> Vec<i64> {
 
 fn print_values(rng: &mut Rng, p: &Profile, ks: &[i64]) -> Vec<String> {
     let style = if rng.chance(0.5) { 0 } else { 1 };
+    let neg_line = ks.iter().any(|&k| k < 0);
     ks.iter()
         .map(|&k| {
             let mut t = fmt_hundredths(k, style);
+            if p.f_more_decimals && k == 0 && rng.chance(0.06) {
+                // magnitudes below the printed precision (they print as 0.00 or as +-0.01), with the sign of the line
+                return format!("{}{}", if neg_line { "-" } else { "" }, rng.pick(&["0.008", "0.0051", "0.0099", "0.006", "0.00501", "0.004", "0.0049", "0.005"][..]));
+            }
             if p.f_more_decimals && k != 0 && rng.chance(0.12) {
                 // values on a rounding boundary of the printed precision
                 if !t.contains('.') {
@@ -737,8 +742,10 @@ pub fn gen_factor_file(rng: &mut Rng, carriers: &[String], hostile: bool, comple
             cset.push(c.clone());
         }
     }
+    // now and then a full table (every carrier, as the regulatory tables have): dozens of factors
+    let full_table = rng.chance(0.15);
     for c in ALL_CARRIERS {
-        if !cset.iter().any(|x| x == c) && rng.chance(0.3) {
+        if !cset.iter().any(|x| x == c) && (full_table || rng.chance(0.3)) {
             cset.push(c.to_string());
         }
     }
